@@ -94,7 +94,7 @@ func runC03(c *Ctx) bool {
 	// and the last name written again later, and spines deeper than 64 / 128 levels with
 	// alternating last / not-last ancestors
 	var shapes [][2]any
-	for _, w := range []int{31, 32, 33, 34, 63, 64, 65, 66, 127, 128, 129, 255, 256, 257} {
+	for _, w := range gen.WideSizes {
 		d, n := gen.WideDup(w, []int{0, w / 2, w - 2, w - 1})
 		shapes = append(shapes, [2]any{d, n})
 	}
@@ -104,6 +104,8 @@ func runC03(c *Ctx) bool {
 	}
 	{
 		d, n := gen.LongDup() // repeated sibling names of 63 ... 255 bytes
+		shapes = append(shapes, [2]any{d, n})
+		d, n = gen.TwinSiblings() // different sibling names with equal digests
 		shapes = append(shapes, [2]any{d, n})
 	}
 	for _, sh := range shapes {
